@@ -563,7 +563,11 @@ def write_png(matrix, matrix_size, out, colormap, scale=1, border=None, compress
             # Since black is zero, it should be the first entry
             palette = [black, transparent]
         png_trans_idx = palette.index(transparent)
-    if number_of_colors > 2:
+    # The cheap iterator is sufficient iff all dark module types share a color
+    # and all light module types (incl. separator and quiet zone) share a color
+    is_uniform = len({clr for mt, clr in clr_map.items() if mt >> 8}) < 2 \
+        and len({clr for mt, clr in clr_map.items() if not mt >> 8}) < 2
+    if number_of_colors > 2 or not is_uniform:
         # Need the more expensive matrix iterator
         miter = matrix_iter_verbose(matrix, matrix_size, scale=1, border=0)
         color_index = {module_type: palette.index(clr) for module_type, clr in clr_map.items()}
